@@ -40,8 +40,8 @@ CLAIMED = {
    note="Assumed: distinct map entries do not share the objects reached through their values; bag accumulators are consumed as multisets; the annotated loops (see evidence map_range_loops[].annotation); ScrubFields.Clean across paths is undecided (not claimed).",
    ref="DESIGN.md §5 C13", technique="contract-based verification: iteration contracts (parallel-loop footprint argument) by SSA dataflow, uniqueness of early exits by SMT (z3)"),
  'C07': dict(
-   text="Deductive proof of no-panic (nil, bounds, type assertion, nil-map, division) obligations generated for every instruction of the request-decoding path (Parse, parseRequest, injectFile, IsBatchMode), the handler (queryHandler, its per-operation closure and reducer, Emit, emitError, getQueryers, parseIntrospectionQuery), error formatting, the plan post-processing and the introspection resolvers that run inside the per-operation closure (ResolveIntrospectionFields, resolveSchema / Type / Field / Directive / InputValue / EnumValue, for arbitrary selection sets and client variables), for arbitrary request bodies / multipart maps; plus ghost-state postconditions: exactly one status line per request, 422 iff Parse fails, 200 otherwise, invalid operations answered with data:null and >=1 error. Termination (hangs) and panics inside gqlparser / encoding/json / net/http are not decided.",
-   note="Assumed: library contracts listed in the evidence (LoadQuery, FormFile, json.Unmarshal, strings.*), callbacks (QueryerFactory) do not modify gateway state, modifies clauses marked assumed; planner internals below SequentialPlanner.Plan and the executor below Executor.Execute are covered only as far as their own contracts (see evidence 'functions_under_contract').",
+   text="Deductive proof of no-panic (nil, bounds, type assertion, nil-map, division) obligations generated for every instruction of the request-decoding path (Parse, parseRequest, injectFile, IsBatchMode), the handler (queryHandler, its per-operation closure and reducer, Emit, emitError, getQueryers, parseIntrospectionQuery), error formatting, and everything that runs inside the per-operation closure below it: the introspection resolvers (for arbitrary selection sets and client variables), every function of the planner (sequential planner, selection-set sanitising, scrub bookkeeping, variable collection - safety-only contracts; this sweep found the crash on an interface without implementations, B23), the sub-query formatter and the upload helpers of the queryer, for arbitrary request bodies / multipart maps and validated operations; plus ghost-state postconditions: exactly one status line per request, 422 iff Parse fails, 200 otherwise, invalid operations answered with data:null and >=1 error. Termination (hangs) and panics inside gqlparser / encoding/json / net/http are not decided.",
+   note="Assumed: library contracts listed in the evidence (LoadQuery, FormFile, json.Unmarshal, strings.*), callbacks (QueryerFactory) do not modify gateway state, modifies clauses marked assumed; the planner, formatter and introspection functions are verified for safety only, under the assumptions that a validated document has resolved fragments / definitions / object definitions and that schema maps hold non-nil values (listed in the evidence); the executor below Executor.Execute is covered by C09.",
    ref="DESIGN.md §5 C07", technique="contract-based deductive verification (auto-generated safety obligations + ghost status contracts over go/ssa, z3+cvc5)"),
  'C08': dict(
    text="Deductive proof that every return path of the per-operation closure yields a non-nil result carrying its own index and no error, that the reducer places by index and keeps the other slots (frame), and via the fold rule that N operations yield N filled slots with slot i holding operation i's result, for every completion order; Parse's single/batch shape establishes Emit's precondition. Independence is proved as a frame: the closure modifies only fresh objects, JSON payload maps, the plan cache and the ghost call counter. Interleavings of the concurrent closures are not decided (fold rule assumes the helper's contract).",
